@@ -381,14 +381,15 @@ impl<'a, 'tcx> BodyCx<'a, 'tcx> {
                     }
                     // promoted `&<small struct>` constants (e.g. `&DAY` for `DAY.as_secs()`): the pointee's bytes
                     if let (ty::Ref(_, inner, _), rustc_middle::mir::interpret::Scalar::Ptr(ptr, _)) = (ty.kind(), s) {
-                        if matches!(inner.kind(), ty::Adt(..)) {
+                        let is_bytes = matches!(inner.kind(), ty::Array(e, _) if matches!(e.kind(), ty::Uint(ty::UintTy::U8)));
+                        if matches!(inner.kind(), ty::Adt(..)) || is_bytes {
                             if let Ok(layout) = tcx.layout_of(self.tenv.as_query_input(*inner)) {
                                 let size = layout.size.bytes() as usize;
                                 let (prov, off) = ptr.into_raw_parts();
                                 if let Some(rustc_middle::mir::interpret::GlobalAlloc::Memory(a)) = tcx.try_get_global_alloc(prov.alloc_id()) {
                                     let a = a.inner();
                                     let start = off.bytes() as usize;
-                                    if size > 0 && size <= 32 && start + size <= a.len() {
+                                    if size > 0 && (size <= 32 || (is_bytes && size <= 1024)) && start + size <= a.len() {
                                         let bytes = a.inspect_with_uninit_and_ptr_outside_interpreter(start..start + size);
                                         let hex: String = bytes.iter().map(|b| format!("{:02x}", b)).collect();
                                         o.push(("ref_hex", J::s(hex)));
